@@ -290,6 +290,11 @@ func DrawScript(r *Rng, cfg ScriptConfig, m *ModuleSpec, name string) proto.GenS
 				rule.Defers = append(rule.Defers, proto.Rule{Render: []proto.Part{{Text: fmt.Sprintf("\nfunc OnlyDeferred_%s_%s() {}\n", sanitize(name), td.Name)}}})
 			default:
 				rule.Render = drawParts(r, cfg, m, pi, td, name, r.Range(1, 2))
+				if imps := m.Pkgs[pi].Imports; len(imps) > 0 && r.P(0.2) {
+					// where does a type of an imported package live?
+					j := Pick(r, imps)
+					rule.Render = append(rule.Render, proto.Part{Locate: m.ImportPath(j) + "." + m.Pkgs[j].Anchor})
+				}
 				if stateful {
 					u := fmt.Sprintf("%s_%s", sanitize(name), td.Name)
 					if r.P(0.5) {
